@@ -77,7 +77,8 @@ class Distribution(BigSMILESbase):
             raise NotImplementedError
 
         if isinstance(mw, gbigsmiles.mol_prob.RememberAdd):
-            return self._distribution.cdf(mw.value) - self._distribution.cdf(mw.previous)
+            # The difference of two cumulative values next to 1 can come out as -1e-16: a probability is never negative.
+            return max(self._distribution.cdf(mw.value) - self._distribution.cdf(mw.previous), 0.0)
 
         return self._distribution.pdf(mw)
 
@@ -136,8 +137,10 @@ class FlorySchulz(Distribution):
 
     def prob_mw(self, mw):
         if isinstance(mw, gbigsmiles.mol_prob.RememberAdd):
-            return self._distribution.cdf(mw.value, a=self._a) - self._distribution.cdf(
-                mw.previous, a=self._a
+            return max(
+                self._distribution.cdf(mw.value, a=self._a)
+                - self._distribution.cdf(mw.previous, a=self._a),
+                0.0,
             )
         return self._distribution.pmf(int(mw), a=self._a)
 
@@ -201,9 +204,11 @@ class SchulzZimm(Distribution):
 
     def prob_mw(self, mw):
         if isinstance(mw, gbigsmiles.mol_prob.RememberAdd):
-            return self._distribution.cdf(
-                mw.value, z=self._z, Mn=self._Mn
-            ) - self._distribution.cdf(mw.previous, z=self._z, Mn=self._Mn)
+            return max(
+                self._distribution.cdf(mw.value, z=self._z, Mn=self._Mn)
+                - self._distribution.cdf(mw.previous, z=self._z, Mn=self._Mn),
+                0.0,
+            )
         return self._distribution.pmf(
             int(mw),
             z=self._z,
@@ -363,8 +368,10 @@ class LogNormal(Distribution):
 
     def prob_mw(self, mw):
         if isinstance(mw, gbigsmiles.mol_prob.RememberAdd):
-            return self._distribution.cdf(mw.value, M=self._M, D=self._D) - self._distribution.cdf(
-                mw.previous, M=self._M, D=self._D
+            return max(
+                self._distribution.cdf(mw.value, M=self._M, D=self._D)
+                - self._distribution.cdf(mw.previous, M=self._M, D=self._D),
+                0.0,
             )
 
         return self._distribution.pdf(mw, M=self._M, D=self._D)
